@@ -57,6 +57,8 @@ void hwloc_internal_distances_init(struct hwloc_topology *topology)
 {
   topology->first_dist = topology->last_dist = NULL;
   topology->next_dist_id = 0;
+  /* no distance-based grouping unless hwloc_internal_distances_prepare() configures it during load */
+  topology->grouping = 0;
 }
 
 /* called at the beginning of load() */
